@@ -9,8 +9,7 @@ TEXT = ('For every struct field of type CommandReader<_> in the crate: exactly o
         'DecodeScheduler::run) and not from Renderer::process, with the value consumed; every CommandWriter<_> field has '
         'a write site off the audio thread; reader and writer of one command come from one command_writer_and_reader() '
         'call; CommandReader::read yields Some only when the triple buffer reports an update; newly inserted resources '
-        'are drained in the same callback; type-level witnesses (no Clone, &mut receivers, Send+Copy payload) run in the '
-        'thorough tier. The interleaving semantics of triple_buffer are trusted.')
+        'are drained in the same callback; type-level compile_fail witnesses (no Clone, &mut receivers, Send+Copy payload) with compiling twins. The interleaving semantics of triple_buffer are trusted.')
 TECHNIQUE = 'MIR field-coverage / call-graph reachability / ordering rules + compile_fail witnesses'
 
 READER_FLOOR = 62
@@ -163,9 +162,8 @@ def run(ctx, R, tier):
     guard(F, R)
     first(F, R)
     once(F, R)
-    if tier == 'thorough':
-        from ..witness import run_witnesses
-        run_witnesses(R, 'C07')
+    from ..witness import run_witnesses
+    run_witnesses(R, 'C07')
 
 
 def pairing(F, R, readers, writers):
